@@ -161,6 +161,7 @@ def loopnReplay (j : Json) : Except String Json := do
     | .arr #[.str "loop"] => pure Thr2LoopN.Act.loop
     | .arr #[.str "tick", r] => do pure (Thr2LoopN.Act.tick (← r.getNat?))
     | .arr #[.str "dispose", i] => do pure (Thr2LoopN.Act.dispose (← i.getNat?))
+    | .arr #[.str "earlyWake"] => pure Thr2LoopN.Act.earlyWake
     | _ => throw s!"bad action {a.compress}"
   let c : Thr2LoopN.Cfg := ⟨order, fun i => nth ranks i 0, .flag⟩
   let (labels, s) := Thr2LoopN.runLabels c Thr2LoopN.init acts
@@ -168,6 +169,13 @@ def loopnReplay (j : Json) : Except String Json := do
     ("labels", Json.arr (labels.map Json.str).toArray),
     ("started", Json.arr ((List.range ranks.length).map (fun i => Json.bool (s.started i))).toArray),
     ("too_early", .bool s.tooEarly), ("bad", .bool s.bad)])
+
+/-- `periodic_replay`: the NewThreadScheduler.schedule_periodic loop under an observed schedule. -/
+def periodicReplay (j : Json) : Except String Json := do
+  let p0 ← getBool j "period0"
+  let sched := (← getArr j "sched").filterMap (fun x => x.getNat?.toOption)
+  let (labels, s) := Thr2Periodic.runLabels (Thr2Periodic.init p0) sched
+  pure (Json.mkObj [("labels", Json.arr (labels.map Json.str).toArray), ("bad", .bool s.bad)])
 
 def immOut : Thr2Timer.ImmOut → Json
   | .ranSync => .str "ran"
@@ -184,6 +192,7 @@ def handle (op : String) (j : Json) : Except String Json := do
   match op with
   | "timer_replay" => timerReplay j
   | "loopn_replay" => loopnReplay j
+  | "periodic_replay" => periodicReplay j
   | "imm" => immRun j
   | "merge_seq" => mergeSeq j
   | "lock_replay" => lockReplay j
